@@ -88,3 +88,9 @@ package object
 //@ requires ls != nil && ctx != nil && fn != nil && ref(fn) != nil
 //@ dynensures CallFunc: result1 == nil ==> result0 != nil
 //@ dynensures BuiltinFunction: result0 != nil
+
+// NewModule builds a module object around compiled code: it reads the code's globals and allocates (assumed frame).
+//@ func NewModule
+//@ trusted
+//@ modifies nothing
+//@ ensures result != nil && fresh(result)
